@@ -412,8 +412,9 @@ class Ctx:
         with open(path, 'w') as f:
             json.dump({'property': self.prop, 'sig': sig, 'found_input': found_input, 'seed': self.seed,
                        'tier': self.tier, 'detail': detail}, f, indent=1, default=str)
-        if len(self.violations) < 20:
+        if len(self.violations) < 20 and path not in [v[1] for v in self.violations]:
             self.violations.append((sig, path, found_input))
+        self.nviol = getattr(self, 'nviol', 0) + 1
         return 'new'
 
     def unproved(self, what, detail):
